@@ -48,14 +48,14 @@ ASSUMPTIONS = [
 ]
 REQUIRED_CLAUSES = [
     "attempts-bounded", "stops-at-success", "retries-when-enabled", "no-retry-when-disabled", "non-retryable-propagates",
-    "unbounded-until-success", "wait-period", "final-outcome", "same-arguments", "documented-retryable-retries", "invocation-independent",
+    "unbounded-until-success", "wait-period", "final-outcome", "same-arguments", "documented-retryable-retries", "invocation-independent", "client:attempts", "client:wait-period", "client:final-outcome",
 ]
 REQUIRED_FEATURES = {
     "retried-after-timeout": 100, "retried-after-unsuccessful": 100, "until-success": 100, "until-success>=20-attempts": 5,
     "last-attempt-raises": 100, "last-attempt-returns-unsuccessful": 100, "api-error-not-408": 100, "api-408-retried": 50,
     "socket-timeout-retried": 50, "other-transport-error": 100, "non-es-exception": 20, "timeout-off": 100, "error-off": 100,
     "wait-default": 50, "wait-0": 50, "ctor-until-default": 50, "ctor-until-overridden": 20, "slow-attempts": 100,
-    "partA-done": 1, "partB-done": 1,
+    "partA-done": 1, "partB-done": 1, "concurrent-groups": 50, "class-client": 100, "client:408-retried": 10, "client:error-body-string": 5, "client:error-body-no-error-member": 5,
 }
 BUDGET = {
     "quick": {"cases": 2_000_000, "seconds": 30},
@@ -384,7 +384,12 @@ class Switch:
         return False
 
     async def __call__(self, es, params):
+        inv = params.get("verif-invocation") if isinstance(params, dict) else None
+        if inv is not None and inv in self.by_invocation:
+            return await self.by_invocation[inv](es, params)
         return await self.current(es, params)
+
+    by_invocation = {}
 
 
 class Env:
@@ -398,6 +403,7 @@ class Env:
         self.shared = {}   # ctor_until -> (Retry, Switch, [last invocations])
         self.counter = 0
         self.shared_invocations = 0
+        self.recent = []
 
     def shared_retrier(self, ctor_until):
         if ctor_until not in self.shared:
@@ -431,6 +437,63 @@ def evaluate(ctx, env, script, params, ctor_until, durations, retrier=None, swit
 
 
 HISTORY = 4
+
+
+def evaluate_concurrently(ctx, env, cases, ctor_until):
+    """Several invocations at the same time on ONE Retry instance - the clients of a worker, the tasks of a parallel element and the streams of a
+    composite all call the one registered instance as concurrent asyncio tasks. Every invocation must behave as if it were alone.
+    cases: [(script, params, durations)]. -> [(index, witness, message)]"""
+    sw = Switch()
+    sw.by_invocation = {}
+    retrier = runner.Retry(sw, retry_until_success=ctor_until)
+    delegates, passed, snaps = [], [], []
+    for i, (script, params, durations) in enumerate(cases):
+        d = Scripted(env.loop, list(script), durations)
+        sw.by_invocation[i] = d
+        delegates.append(d)
+        p = dict(params)
+        p["verif-invocation"] = i
+        passed.append(p)
+        snaps.append(dict(p))
+    env.loop.now = 0.0
+    results = [None] * len(cases)
+
+    async def one(i):
+        try:
+            results[i] = ("return", await retrier(env.es, passed[i]))
+        except Abort:
+            results[i] = ("abort", None)
+        except BaseException as e:  # pylint: disable=broad-except
+            if isinstance(e, (KeyboardInterrupt, SystemExit)):
+                raise
+            results[i] = ("raise", e)
+
+    async def main():
+        await asyncio.gather(*[one(i) for i in range(len(cases))])
+
+    env.loop.run_until_complete(main())
+    out = []
+    for i, (script, params, durations) in enumerate(cases):
+        d = delegates[i]
+        exp = reference(list(script), params, ctor_until)
+        mode, obj = results[i]
+        if mode == "abort":
+            got = {"attempts": len(d.starts), "gaps": [], "final": ("abort", None), "aborted": True}
+        else:
+            idx = [j for j, pr in enumerate(d.produced) if pr is obj]
+            if obj is None and mode == "return":
+                idx = [j for j in idx if j == len(d.produced) - 1] or idx
+            which = idx[-1] if idx else None
+            gaps = [d.starts[j + 1] - d.ends[j] for j in range(len(d.starts) - 1) if j < len(d.ends)]
+            got = {"attempts": len(d.starts), "gaps": gaps, "final": (mode, which), "foreign": None if which is not None else f"{type(obj).__name__}: {str(obj)[:120]}"}
+        ctx.clause("invocation-independent")
+        problems = compare(_Null(), list(script), params, ctor_until, exp, got, d, env.es, snaps[i])
+        if problems:
+            w = witness_of(list(script), params, ctor_until, durations, exp, got)
+            w["concurrent_invocations_on_the_same_instance"] = [{"script": [kind_at(list(sc), k) for k in range(min(12, max(1, reference(list(sc), pa, ctor_until)["attempts"])))], "params": pa, "durations": list(du[:12])} for sc, pa, du in cases]
+            w["index_of_this_invocation"] = i
+            out.append((i, w, f"invocation {i + 1} of {len(cases)} running concurrently on one Retry instance: {problems[0][1]}"))
+    return out
 
 
 def evaluate_on_used_instance(ctx, env, script, params, ctor_until, durations):
@@ -491,6 +554,23 @@ def run_case(ctx, env, script, params, ctor_until, durations, tag=None):
                 w, msg = witness_of(short, params, ctor_until, durations, exp2, got2), same[0]
         ctx.violation(clause, w, msg)
     env.counter += 1
+    if not problems and exp["attempts"] <= 8:
+        env.recent.append((list(script[: max(1, exp["attempts"])]), dict(params), list(durations[:CAP]), ctor_until))
+        del env.recent[:-3]
+    if env.counter % 16 == 5 and not problems and exp["attempts"] >= 2:
+        # this invocation together with up to two earlier (problem-free) ones of the same constructor default, all at once on one instance;
+        # every attempt takes time and every wait is a suspension point, so the invocations interleave
+        mates = [(sc, pa, du or [0.25] * len(sc)) for sc, pa, du, cu in env.recent[:-1] if cu == ctor_until][:2]
+        if mates:
+            mine = (list(script[: exp["attempts"]]), dict(params), [x or 0.25 for x in (list(durations) + [0] * exp["attempts"])[: exp["attempts"]]])
+            group = [mine] + [(sc, pa, [x or 0.25 for x in (list(du) + [0] * len(sc))[: len(sc)]]) for sc, pa, du in mates]
+            # each alone first (the durations differ from the first run); then together
+            alone_ok = all(not evaluate_concurrently(_Null(), env, [g], ctor_until) for g in group)
+            if alone_ok:
+                for i, w, msg in evaluate_concurrently(ctx, env, group, ctor_until)[:1]:
+                    ctx.violation("invocation-independent", w, msg)
+                    ctx.feature("concurrent-deviation")
+                ctx.feature("concurrent-groups")
     if env.counter % 2 == 0 and not problems:
         dep = evaluate_on_used_instance(ctx, env, script, params, ctor_until, durations)
         if dep:
@@ -670,6 +750,16 @@ def run_shard(ctx):
     while i < 3000 and ctx.time_left() > 0:
         random_case(ctx, env, ctx.case_rng(f"C{i}"), i)
         i += 1
+    # ---- a first slice of the client class (rally's real client between the retry loop and the wire)
+    import sys
+
+    from props import c16_client
+
+    for j in range(25):
+        if ctx.time_left() <= 0:
+            break
+        c16_client.one_case(ctx, sys.modules[__name__], ctx.case_rng(f"K0-{j}"))
+    asyncio.set_event_loop(env.loop)
     # ---- part A: short sequences x the full parameter grid
     idx, mine, done = 0, 0, True
     for seq in sequences_upto(a_len):
@@ -706,9 +796,18 @@ def run_shard(ctx):
     ctx.exhaustive[f"B: all sequences up to length {b_len} x sampled parameter combinations"] = done
     if done:
         ctx.feature("partB-done")
-    # ---- part C: random long sequences, extended alphabet, long retry-until-success runs
+    # ---- part C: random long sequences, extended alphabet, long retry-until-success runs; one case in 400 goes through rally's real client
+    import sys
+
+    from props import c16_client
+
+    me = sys.modules[__name__]
     while ctx.more():
-        random_case(ctx, env, ctx.case_rng(f"C{i}"), i)
+        if i % 400 == 7:
+            c16_client.one_case(ctx, me, ctx.case_rng(f"K{i}"))
+            asyncio.set_event_loop(env.loop)
+        else:
+            random_case(ctx, env, ctx.case_rng(f"C{i}"), i)
         i += 1
 
 
@@ -768,8 +867,20 @@ def replay(ctx, rec):
     if "operation" in w:
         check_registration(ctx, env)
         return
+    if w.get("class") == "client":
+        import sys
+
+        from props import c16_client
+
+        c16_client.one_case(ctx, sys.modules[__name__], None, explicit=w["case"])
+        return
     c = w["case"]
     dur = c.get("durations") or [0] * len(c["script"])
+    if "concurrent_invocations_on_the_same_instance" in w:
+        group = [(h["script"], h["params"], h["durations"] + [0.25] * max(0, len(h["script"]) - len(h["durations"]))) for h in w["concurrent_invocations_on_the_same_instance"]]
+        for i, w2, msg in evaluate_concurrently(ctx, env, group, c["ctor_until"])[:1]:
+            ctx.violation("invocation-independent", w2, msg)
+        return
     if "earlier_invocations_on_the_same_instance" in w:
         retrier, sw, hist = env.shared_retrier(c["ctor_until"])
         for h in w["earlier_invocations_on_the_same_instance"]:
